@@ -360,7 +360,7 @@ def mk_op(rng, kind, strict, reqnum=None):
     if kind[0] == "A":
         ty = int(kind[1:])
         if ty == 192:
-            ty = rng.choice(UNKNOWN_TYPES[:3] + [192, 192])
+            ty = rng.choice(UNKNOWN_TYPES[:3] + [192, 192, 8, 8, 9, 5, 11])   # 8 and 9 lie between the singleton types 6, 7 and 10
         return ("ADD", _block(rng, ty, rng.choice(REQ_NUMS) if reqnum is None else reqnum, strict))
     if kind == "SP":
         return ("SETPAYLOAD", _data(rng, 1)[1])
@@ -414,6 +414,9 @@ def corpus():
     out.append(mk_line(OFFSET + 2000, std, [("SETCRC", 200)]))
     out.append(mk_line(OFFSET + 2000, std, [("SETCRC", 3), ("ADD", _c(7, 9, ("AGE", 5))), ("SETPAYLOAD", b"u"), ("UPD", EIDS[1], 1)]))
     out.append(mk_line(OFFSET + 2000, std, [("SETCRC", 255), ("SETCRC", 1), ("ADD", _c(192, 0, ("UNK", b""), crc=("U", 4)))]))
+    # unassigned block types between the singleton types (6, 7, 10): any number of them is allowed
+    out.append(mk_line(OFFSET + 2000, std, [("ADD", _c(8, 0, ("UNK", b"a"))), ("ADD", _c(8, 0, ("UNK", b"a"))), ("ADD", _c(9, 0, ("UNK", b""))),
+                                            ("ADD", _c(9, 7, ("UNK", b"b"))), ("ADD", _c(5, 0, ("UNK", b""))), ("ADD", _c(11, 0, ("UNK", b""))), ("ADD", _c(11, 0, ("UNK", b"")))]))
     # builder input in arbitrary order, payload first
     out.append(mk_line(OFFSET + 2000, dict(p=dict(P0), cs=[pay, _c(7, 2, ("AGE", 0)), _c(10, 4, ("HOP", 32, 0)), _c(6, 3, ("PREV", EIDS[2]))]),
                        [("SORT",), ("ADD", unk), ("UPD", EIDS[1], U64)]))
